@@ -42,6 +42,8 @@ def run(ctx):
     # the tree of THIS parse only: every parser attribute a handler writes (incl. result) is re-initialised per parse (rule H2 of C13)
     from .c13 import h2
     h2(ctx, R)
+    # the tree is built from the token stream: the token rules must cut the text as RFC 5228 does (L1-L4 of C01)
+    c01.lexer_rules(ctx, R)
 
 
 def container_writes(ctx, attr, modules):
